@@ -60,6 +60,18 @@ A *case* is a structural tuple, never source text.  Four families::
     how        "module" (Template.module), "make_module" (make_module({"rv": "R2"})), for templates obtained by
                "get" (get_template) or "fs" (from_string):  how in HOWS
 
+    ("sel", via, ignore, items)      candidate lists: items = tuple over SEL_ALPHA ("nope"/"nope2" missing names, "a"/"b"
+               existing names, "OBJ"/"OBJ2" Template objects from from_string), every list of length 1..3 (thorough: 1..4 over
+               the larger alphabet); via in SEL_VIAS: "inc-lit" {% include ["nope", "a", tv] %} (objects through the
+               variables tv / tv2), "inc-var" {% include cands %}, "select" env.select_template(list),
+               "get_or_select" env.get_or_select_template(list); ignore = ignore missing (includes only).
+               Reference: the FIRST entry that exists (a Template object always exists) is rendered.
+    ("tset", obs, where, names)      helper whose only assignment is {% set <names> = "V0", "V1", ... %} (tuple unpacking;
+               one name = plain set), names = ordered distinct tuple over TSET_ALPHA (public x, y; private _p, _q), placed
+               at top level / inside an executed if / inside a for body (thorough also: inside with); obs "module"
+               (attributes of Template.module), "make_module", "import" ({% import "h" as m %} and, per alphabet name,
+               {{ m.N is defined }}:{{ m.N }}).  Reference: exactly the public names of a top-level (or if) assignment.
+
     cases(bound, shard=None)   all cases of "quick" / "thorough", simplest first, deterministic; shard=(k, n)
     count(bound)
     to_templates(case)         -> (sources, main_name, data); data values may be TemplateRef / TemplateFromString
@@ -92,6 +104,16 @@ SEQ_SECOND = ("inc", "from", "direct")
 SEQ_PLACEMENTS = ("for", "with", "macro")
 SEQ_SHAPE = ("pubm",)
 RV_LOC = "RL"
+
+SEL_VIAS = ("inc-lit", "inc-var", "select", "get_or_select")
+SEL_ALPHA = {"quick": ("nope", "a", "b", "OBJ"), "thorough": ("nope", "nope2", "a", "b", "OBJ", "OBJ2")}
+SEL_LEN = {"quick": 3, "thorough": 4}
+SEL_SOURCES = {"a": "A<{{ rv }}>", "b": "B<{{ rv }}>"}
+SEL_OBJECTS = {"OBJ": ("tv", "O<{{ rv }}>"), "OBJ2": ("tv2", "O2<{{ rv }}>")}
+TSET_ALPHA = ("x", "y", "_p", "_q")
+TSET_LEN = {"quick": 3, "thorough": 4}
+TSET_WHERE = {"quick": ("top", "if", "for"), "thorough": ("top", "if", "for", "with")}
+TSET_OBS = ("module", "make_module", "import")
 
 VARS = ("rv", "loc", "eg", "mg", "hg")
 ENV_GLOBALS = {"eg": "E"}
@@ -172,6 +194,18 @@ def _all_cases(bound):
             for var in SHADOW_VARS:
                 for stmt in SEQ_FIRST:
                     yield ("shadow", stmt, var, where, mglob, hglob)
+    # candidate lists mixing missing names, existing names and Template objects
+    for n in range(1, SEL_LEN[bound] + 1):
+        for items in itertools.product(SEL_ALPHA[bound], repeat=n):
+            for via in SEL_VIAS:
+                for ignore in ((False, True) if via.startswith("inc") else (False,)):
+                    yield ("sel", via, ignore, items)
+    # tuple-unpacking assignments mixing public and private names, seen through the module
+    for n in range(1, TSET_LEN[bound] + 1):
+        for names in itertools.permutations(TSET_ALPHA, n):
+            for where in TSET_WHERE[bound]:
+                for obs in TSET_OBS:
+                    yield ("tset", obs, where, names)
     # import ... as m
     for shape in shapes:
         for mglob, hglob in globs:
@@ -234,6 +268,14 @@ def _fields(case):
         _, first, placement, second, rvloc, mglob, hglob = case
         return dict(fam=fam, first=first, second=second, rvloc=rvloc, placement=placement, mglob=mglob, hglob=hglob,
                     shape=SEQ_SHAPE, ctx="with", ignore=False, target="lit", variant=None)
+    if fam == "sel":
+        _, via, ignore, items = case
+        return dict(fam=fam, via=via, ignore=ignore, items=tuple(items), ctx=None, placement=via, mglob=False,
+                    hglob=False, shape=(), target="sel", variant=None)
+    if fam == "tset":
+        _, obs, where, names = case
+        return dict(fam=fam, obs=obs, where=where, names=tuple(names), ctx=None, placement=where, mglob=False,
+                    hglob=False, shape=(), target="lit", variant=None)
     raise ValueError(case)
 
 
@@ -495,6 +537,8 @@ def observe_module(mod):
 
 def run(case, env_kwargs=None):
     f = _fields(case)
+    if f["fam"] in ("sel", "tset"):
+        return run_extra(case, env_kwargs)
     try:
         env, main, data, g = build(case, env_kwargs)
         if f["fam"] == "mod":
@@ -617,6 +661,8 @@ def _expected_seq(f):
 
 def expected(case):
     f = _fields(case)
+    if f["fam"] in ("sel", "tset"):
+        return expected_extra(case)
     shape = f["shape"]
     hglob = f["hglob"]
     htg = HELPER_GLOBALS if hglob else {}
@@ -684,3 +730,148 @@ def expected(case):
     else:
         body = pieces[0]
     return "M[" + body + "]"
+
+
+# ------------------------------------------------------------------ families "sel" and "tset"
+
+
+def extra_sources(case):
+    """(sources, render data with TemplateFromString markers, candidate list or None)"""
+    f = _fields(case)
+    if f["fam"] == "sel":
+        src = dict(SEL_SOURCES)
+        data = dict(RENDER_VARS)
+        for o in sorted(set(f["items"]) & set(SEL_OBJECTS)):
+            var, osrc = SEL_OBJECTS[o]
+            data[var] = TemplateFromString(osrc, None)
+        ign = " ignore missing" if f["ignore"] else ""
+        if f["via"] == "inc-lit":
+            lst = ", ".join(SEL_OBJECTS[i][0] if i in SEL_OBJECTS else '"%s"' % i for i in f["items"])
+            src["main"] = "M[{% include [" + lst + "]" + ign + " %}]"
+        elif f["via"] == "inc-var":
+            src["main"] = "M[{% include cands" + ign + " %}]"
+        return src, data, list(f["items"])
+    names = f["names"]
+    values = ", ".join('"V%d"' % i for i in range(len(names)))
+    st = "{% set " + ", ".join(names) + " = " + values + " %}"
+    st += "".join("{{ %s }}" % n for n in names)
+    where = f["where"]
+    if where == "if":
+        st = "{% if eg %}" + st + "{% endif %}"
+    elif where == "for":
+        st = "{% for q in [1] %}" + st + "{% endfor %}"
+    elif where == "with":
+        st = "{% with w = 1 %}" + st + "{% endwith %}"
+    src = {"h": "h<" + st + ">"}
+    if f["obs"] == "import":
+        src["main"] = '{% import "h" as m %}' + "|".join("{{ m.%s is defined }}:{{ m.%s }}" % (n, n) for n in TSET_ALPHA)
+    return src, dict(RENDER_VARS), None
+
+
+def run_extra(case, env_kwargs=None):
+    import jinja2
+    from jinja2.environment import TemplateModule
+
+    f = _fields(case)
+    try:
+        src, data, cands = extra_sources(case)
+        env = jinja2.Environment(loader=jinja2.DictLoader(src), **(env_kwargs or {}))
+        env.globals.update(ENV_GLOBALS)
+        data = {k: (env.from_string(v.source) if isinstance(v, TemplateFromString) else v) for k, v in data.items()}
+        if f["fam"] == "sel":
+            if f["via"].startswith("inc"):
+                if f["via"] == "inc-var":
+                    data["cands"] = [data[SEL_OBJECTS[i][0]] if i in SEL_OBJECTS else i for i in cands]
+                return env.get_template("main").render(**data)
+            lst = [data[SEL_OBJECTS[i][0]] if i in SEL_OBJECTS else i for i in cands]
+            t = env.select_template(lst) if f["via"] == "select" else env.get_or_select_template(lst)
+            return "M[" + t.render(rv=data["rv"]) + "]"
+        if f["obs"] == "import":
+            return env.get_template("main").render(**data)
+        t = env.get_template("h")
+        mod = t.module if f["obs"] == "module" else t.make_module({"rv": "R2"})
+        own = sorted(set(dir(mod)) - set(dir(TemplateModule)) - {"_body_stream", "__name__"})
+        return {"names": own, "has": [n for n in TSET_ALPHA if hasattr(mod, n)],
+                "values": [str(getattr(mod, n)) for n in own], "str": str(mod)}
+    except Exception as e:  # noqa: BLE001
+        return ("exc", _exc_name(e))
+
+
+def expected_extra(case):
+    f = _fields(case)
+    if f["fam"] == "sel":
+        # api.rst select_template: "tries a number of templates before it fails ... names: List of template names
+        # or Template objects to try in order"; templates.rst Include: "each will be tried in order until one is not
+        # missing"; "ignore missing": the statement is ignored when none exists
+        for i in f["items"]:
+            if i in SEL_SOURCES:
+                return "M[" + i.upper() + "<R>]"
+            if i in SEL_OBJECTS:
+                return "M[" + i.replace("OBJ", "O") + "<R>]"
+        return "M[]" if f["ignore"] else ("exc", "TemplateNotFound")
+    names = f["names"]
+    val = {n: "V%d" % i for i, n in enumerate(names)}
+    # docs "Import": public top-level assignments are exported, names starting with an underscore are private;
+    # an executed if branch is top level, a loop body (and a with block) is its own scope
+    exp = sorted(n for n in names if not n.startswith("_")) if f["where"] in ("top", "if") else []
+    if f["obs"] == "import":
+        return "|".join(("True:" + val[n]) if n in exp else "False:" for n in TSET_ALPHA)
+    return {"names": exp, "has": [n for n in TSET_ALPHA if n in exp], "values": [val[n] for n in exp],
+            "str": "h<" + "".join(val[n] for n in names) + ">"}
+
+
+def extra_features(case):
+    """counters that show a case of the new families exercised what the family is about"""
+    f = _fields(case)
+    out = []
+    if f["fam"] == "sel":
+        items = f["items"]
+        objs = [k for k, i in enumerate(items) if i in SEL_OBJECTS]
+        nm = [k for k, i in enumerate(items) if i in SEL_SOURCES]
+        if objs and nm and nm[0] < objs[0]:
+            out.append("sel_existing_name_before_object")
+        if objs and nm and objs[0] < nm[0]:
+            out.append("sel_object_before_existing_name")
+        if objs and items[0] not in SEL_OBJECTS and items[0] not in SEL_SOURCES and (not nm or objs[0] < nm[0]):
+            out.append("sel_object_after_missing_name")
+    elif f["fam"] == "tset":
+        pub = [n for n in f["names"] if not n.startswith("_")]
+        if pub and len(pub) < len(f["names"]) and f["where"] in ("top", "if"):
+            out.append("tset_mixed_public_private_toplevel")
+        if len(f["names"]) > 1 and not pub:
+            out.append("tset_all_private_tuple")
+    return out
+
+
+def extra_script(case):
+    f = _fields(case)
+    src, data, cands = extra_sources(case)
+    objs = {k: v.source for k, v in data.items() if isinstance(v, TemplateFromString)}
+    plain = {k: v for k, v in data.items() if not isinstance(v, TemplateFromString)}
+    s = ("import jinja2\n"
+         f"src = {src!r}\n"
+         "env = jinja2.Environment(loader=jinja2.DictLoader(src))\n"
+         f"env.globals.update({ENV_GLOBALS!r})\n"
+         f"data = {plain!r}\n"
+         f"data.update({{k: env.from_string(v) for k, v in {objs!r}.items()}})\n"
+         "try:\n")
+    if f["fam"] == "sel":
+        lst = "[" + ", ".join(("data[%r]" % SEL_OBJECTS[i][0]) if i in SEL_OBJECTS else repr(i) for i in cands) + "]"
+        if f["via"] == "inc-lit":
+            s += "    print('rendered:', repr(env.get_template('main').render(**data)))\n"
+        elif f["via"] == "inc-var":
+            s += f"    print('rendered:', repr(env.get_template('main').render(cands={lst}, **data)))\n"
+        else:
+            meth = "select_template" if f["via"] == "select" else "get_or_select_template"
+            s += f"    print('rendered:', repr('M[' + env.{meth}({lst}).render(rv=data['rv']) + ']'))\n"
+    elif f["obs"] == "import":
+        s += "    print('rendered:', repr(env.get_template('main').render(**data)))\n"
+    else:
+        s += ("    t = env.get_template('h')\n"
+              + ("    m = t.module\n" if f["obs"] == "module" else "    m = t.make_module({'rv': 'R2'})\n")
+              + "    print('exposed :', sorted(k for k in vars(m) if k not in ('_body_stream', '__name__')))\n"
+                "    print('str     :', repr(str(m)))\n")
+    s += ("except Exception as e:\n"
+          "    print('raised  :', type(e).__name__, e)\n"
+          f"print('expected:', {expected_extra(case)!r})\n")
+    return s
